@@ -37,6 +37,11 @@ P = {
   text="Every state change caused by one segment, one dispatch or one API call is an RFC 9293 edge with its prescribed cause: ESTABLISHED only by an ACK of exactly ISS+1 (SYN+ACK in SYN-SENT), CLOSE-WAIT/CLOSING only by an in-order FIN, FIN-WAIT-2 / CLOSED-from-LAST-ACK only by the ACK of our FIN, TIME-WAIT only when both, TIME-WAIT ends only through its timer, only an in-window RST (RFC 9293 acceptability test; exact ACK in SYN-SENT) resets, reads/writes never change state.",
   note="Bounds as C01; flag combinations reach process() through TcpRepr::parse's control mapping (C06/C07).",
   ref="DESIGN.md 5/C17, 9"),
+ "C18": dict(
+  tech="one process()/dispatch()/poll() step of dhcpv4::Socket from an arbitrary client state on byte-template server messages (RFC 2131/2132 layouts with symbolic field values), parse_ack lease arithmetic for all values, a real-history harness in the thorough tier",
+  text="For every client state and every server message of ten option layouts (all header fields and option values symbolic): a lease is configured only from a DHCPACK with the socket's transaction id and hardware address, a server identifier, a contiguous mask and a unicast address, and only after a REQUEST was actually handed to the device; then now <= T1 <= T2 <= expiry <= now + min(lease, max_lease) for ALL u32 lease/T1/T2 values; at expiry dispatch() resets and poll() yields Deconfigured, poll_at never exceeds expiry, renew (unicast) precedes rebind (broadcast) precedes expiry, discovery/request retries have bounded intervals, emit failure changes nothing.",
+  note="Messages follow fixed layouts (option order/presence per harness, values free); malformed option bytes are C07/C03's subject. Interface MTU 82..1514, request_retries <= 16 in the dispatch harness; the PRNG state is symbolic after construction.",
+  ref="DESIGN.md 5/C18, 14"),
  "C14": dict(
   tech="model-based one-step checks of every public RingBuffer / PacketBuffer operation from arbitrary (API-reachable) states against a ghost queue",
   text="For every capacity 0..=6, every read position/length and every argument: each of the 17 RingBuffer operations returns, keeps and stores exactly what a simple queue model says (incl. the unallocated window used by TCP reassembly), never exceeds capacity; PacketBuffer (<= 3 metadata slots, payload ring <= 8, state = empty buffer at any read pointers + 3 symbolic public steps) returns (header, payload) pairs whole, in order, once; a refused enqueue or declined dequeue leaves the queue unchanged; an empty buffer accepts any size <= capacity through either enqueue interface.",
